@@ -179,6 +179,9 @@ func (cw *chunkedWriter) Close() error {
 }
 
 func parseHexUint(v []byte) (n uint64, err error) {
+	if len(v) == 0 {
+		return 0, errors.New("empty hex number for chunk length")
+	}
 	for _, b := range v {
 		n <<= 4
 		switch {
